@@ -19,6 +19,8 @@ func main() {
 		os.Exit(4)
 	}
 	switch os.Args[1] {
+	case "pointer":
+		cmdPointer(os.Args[2:])
 	case "tq":
 		cmdTQ(os.Args[2:])
 	default:
